@@ -709,7 +709,7 @@ def c07_classify(case, impl, why):
     if "non-finite literal" in why:
         return "literal-overflows-to-inf"
     line = why.split("|", 1)[1] if "|" in why else ""
-    if re.search(r"\(\s*RUN ", line) or re.search(r", RUN ", line):
+    if re.search(r"(?i)\(\s*RUN |,\s+RUN ", line):
         return "hoisted-call-captured-by-default-colour"
     if "operand missing" in why or "empty argument list" in why or "empty expression" in why or "bad argument list" in why:
         # which construct lost its operand?
